@@ -313,7 +313,7 @@ class A_Belt(Adapter):
     timed = True
     avail = "whitebox"
     edge = True
-    settle_urgent = True    # belt items carry per-item processes that must be initialised before the next call
+    settle_urgent = False   # (was True until fix F20: a put followed at once by a reserve_put used to read a field the item process sets on start-up)
 
     def __init__(self, kind="slotted", accumulating=True, cap=2, **kw):
         super().__init__(**kw)
